@@ -222,7 +222,7 @@ def extra_c03(prop, tier, seed, profiles):
 
 PLANS["C03"] = dict(
     suites=[Suite("pos", 3000, 200000), Suite("tl", 150, 4000)],
-    floors={"quick": {"pos:N": 500, "pos:E": 500, "pos:A00": 500, "pos:A10": 500, "pos:A01": 200, "pos:A11": 200}},
+    floors={"quick": {"pos:N": 500, "pos:E": 500, "pos:A00": 500, "pos:A10": 500, "pos:A01": 200, "pos:A11": 200, "op:prep": 2000}},
     extra=extra_c03,
     assumptions=["cycle duration > 0, finite delay (the property's hypotheses)"],
 )
